@@ -300,6 +300,7 @@ func checkC13(c *Ctx) {
 	checkWidenessInclusion(c, "C13.R4.wideness-inclusion", pk)
 	checkPresencePure(c, "C13.R7.presence-pure", pk)
 	checkEnumAnyType(c, "C13.R4.enum-any-type", pk)
+	checkItemsCompared(c, "C13.R4.items-compared", pk)
 	checkAccumulation(c, pk)
 	checkTwinShortcuts(c, "C13.R4.twin-shortcuts", r)
 	checkBothPresent(c, "C13.R4.both-present", r)
@@ -1262,5 +1263,50 @@ func checkEnumAnyType(c *Ctx, rule string, pk *packages.Package) {
 	}
 	if n == 0 {
 		c.Anchor(rule, "diff › CompareEnums call", "not found")
+	}
+}
+
+// checkItemsCompared: forParam / forHeader describe the array itself; what its items accept is
+// in Items, which CompareProps does not descend into. Wherever a parameter or a header of one
+// spec is compared with its twin, their items are compared too.
+func checkItemsCompared(c *Ctx, rule string, pk *packages.Package) {
+	c.Rule(rule, "every function that compares forParam(…) or forHeader(…) of the two specs also compares their Items (compareItems)", 2)
+	info := pk.TypesInfo
+	n := 0
+	for _, fd := range load.AllFuncs(pk) {
+		if fd.Body == nil {
+			continue
+		}
+		uses := map[string]bool{}
+		itemsArgs := map[string]bool{}
+		ast.Inspect(fd.Body, func(m ast.Node) bool {
+			call, ok := m.(*ast.CallExpr)
+			if !ok {
+				return true
+			}
+			fn := goan.Callee(info, call)
+			if fn == nil || fn.Pkg() != pk.Types {
+				return true
+			}
+			switch fn.Name() {
+			case "forParam", "forHeader":
+				uses[fn.Name()] = true
+			case "compareItems":
+				for _, a := range call.Args {
+					if goan.LastSel(a) == "Items" {
+						itemsArgs[goan.ExprString(a)] = true
+					}
+				}
+			}
+			return true
+		})
+		for which := range uses {
+			n++
+			c.Check(len(itemsArgs) >= 2, rule, fmt.Sprintf("diff.%s › %s twins have their items compared", load.FuncName(fd), which), c.posOf(pk, fd.Pos()), fmt.Sprintf("compareItems(%d Items arguments)", len(itemsArgs)),
+				fmt.Sprintf("%s compares the two %s values but not their Items: narrowing what the items of an array parameter or header accept (enum, lengths, bounds, pattern) is reported as no change", load.FuncName(fd), strings.TrimPrefix(which, "for")))
+		}
+	}
+	if n == 0 {
+		c.Anchor(rule, "diff › forParam / forHeader comparisons", "none found")
 	}
 }
